@@ -215,6 +215,11 @@ class HamiltonianChain(MarkovChain):
         G = zeros(self.n_parameters)
         for i in range(self.n_parameters):
             step = 1e-5 * abs(t[i]) if t[i] != 0.0 else 1e-5
+            if self.bounds is not None:
+                # the displaced point must not leave the bounds
+                step = min(step, 1e-3 * self.bounds.width[i])
+                if t[i] + step > self.bounds.upper[i]:
+                    step = -step
             t_step = t.copy()
             t_step[i] += step
             G[i] = (self.posterior(t_step) - p) / step
